@@ -710,21 +710,53 @@ func r2(w *World, r *Report) {
 	// StakeCtrler: reward hash
 	sc := needFn(r, "R-2", w, fref{pkgStake, "StakeCtrler", "Commit"})
 	if sc != nil {
-		var put ssa.CallInstruction
-		for _, c := range CallsIn(sc) {
-			if callName(c.Common()) == "PutLastRewardHash" {
-				put = c
-			}
-		}
-		ok := false
-		if put != nil {
-			_, a := callRecvArgs(put.Common())
-			for _, fs := range w.fieldStores(sc) {
-				if fs.Field.Name() == "lastRwdHash" && len(a) == 1 && sameValue(a[0], fs.Val) && fs.In.Block() == put.Block() {
-					ok = true
+		// on every path through Commit (helpers expanded) the hash kept in memory and
+		// the hash persisted are the same value, written together or not at all
+		ev := func(in ssa.Instruction) string {
+			switch x := in.(type) {
+			case ssa.CallInstruction:
+				if callName(x.Common()) == "PutLastRewardHash" {
+					if _, a := callRecvArgs(x.Common()); len(a) == 1 {
+						return "PUT\x01" + w.canonOnPathFallible(w.phiOnPath(a[0]))
+					}
+					return "PUT\x01?"
+				}
+			case *ssa.Store:
+				if fa, isFA := x.Addr.(*ssa.FieldAddr); isFA {
+					if n, f := fieldOf(fa.X.Type(), fa.Field); n != nil && f != nil && f.Name() == "lastRwdHash" && n.Obj().Name() == "StakeCtrler" {
+						return "SET\x01" + w.canonOnPathFallible(w.phiOnPath(x.Val))
+					}
 				}
 			}
+			return ""
 		}
+		w.psEvents = true
+		paths, complete := w.enumPaths(sc, func(ssa.Value) (bool, bool) { return false, false }, ev, 4000)
+		w.psEvents = false
+		ok := complete
+		nBoth := 0
+		for _, p := range paths {
+			if p.Term != "ok" && p.Term != "unknown" {
+				continue
+			}
+			var puts, sets []string
+			for _, e := range p.Events {
+				if strings.HasPrefix(e, "PUT\x01") {
+					puts = append(puts, e[4:])
+				} else {
+					sets = append(sets, e[4:])
+				}
+			}
+			if len(puts) != len(sets) || len(puts) > 1 {
+				ok = false
+			} else if len(puts) == 1 {
+				if puts[0] != sets[0] || strings.HasPrefix(puts[0], "?") {
+					ok = false
+				}
+				nBoth++
+			}
+		}
+		ok = ok && nBoth > 0
 		r.Check(ok, "R-2", "StakeCtrler.Commit:reward-hash", "the reward hash kept in memory is the one persisted, under the same condition", "StakeCtrler.Commit keeps a reward hash in memory that it does not persist (restart would compute another app hash)", fnSite(w, sc))
 	}
 	ns := needFn(r, "R-2", w, fref{pkgStake, "", "NewStakeCtrler"})
@@ -1165,7 +1197,11 @@ func checkC08(w *World, r *Report) {
 		for a := 0; a < len(ct.ledgers); a++ {
 			for b := a + 1; b < len(ct.ledgers); b++ {
 				f := AR(`\.`+ct.ledgers[a]+`\.Commit\(\)#1$`, "!=", `\.`+ct.ledgers[b]+`\.Commit\(\)#1$`)
-				if ok, _ := w.failsUnder(fn, nil, f); ok {
+				ok, why := w.failsUnder(fn, nil, f)
+				if os.Getenv("RIGOCHECK_DEBUG") == "k2" {
+					fmt.Println("DBG k2", refStr(ct.ref), ct.ledgers[a], ct.ledgers[b], ok, why)
+				}
+				if ok {
 					n++
 					par[fnd(ct.ledgers[a])] = fnd(ct.ledgers[b])
 				}
